@@ -25,7 +25,7 @@ pub fn spec() -> Spec {
         case_cap_s: |t| t.pick(300, 3600),
         rule: "one case per connected complete symbol: every labeled 2- and 3-dimensional symbol of size <= 3 with branching in {1,2,3} (every labeling), every DSyms output over DSets(2, <= N), the harness-built 2-sheeted covers of the labeled symbols of size <= 2, (thorough) 3-dimensional size 4 with branching {1,2}. Structural clauses read off the returned maps; group clauses against the textbook presentation built by the reference model: equal abelian invariants, equal subgroup class counts up to an index, for finite groups equal order (= 4/K for good spherical 2D symbols) and mutually inverse generator maps verified in the regular representations. Non-trivial = at least one generator.",
         assumptions: &["class counts are compared only while (n!)^generators <= 2*10^6 for both presentations; skipped comparisons are counted in the evidence"],
-        bounds: |t| json!({"labeled_max_size": 3, "V": [1,2,3], "dsyms_dsets_max_size": t.pick(6, 8), "class_index": t.pick(3, 4), "order_cap": 3000, "dim3_size4_V12": t.is_thorough()}),
+        bounds: |t| json!({"labeled_max_size": 3, "V": [1,2,3], "dsyms_dsets_max_size": t.pick(8, 10), "class_index": 4, "order_cap": 3000, "dim3_size4": t.pick("V = {1,2}", "V = {1,2,3} with <= 3 branched orbits")}),
     }
 }
 
@@ -188,7 +188,7 @@ pub fn check_symbol(ctx: &mut Ctx, family: &str, s: &RS) {
         ctx.violation("abelianisation", case.clone(), format!("crate presentation <{} | {:?}> has H1 {:?}, textbook presentation has {:?}", ng, crels, a1, a2), weight);
         return;
     }
-    let kmax = ctx.tier.pick(3, 4);
+    let kmax = 4;
     for idx in 1..=kmax {
         if budget(ng, idx) && budget(tb.ngens, idx) {
             ctx.ops(1);
@@ -322,14 +322,15 @@ fn run(ctx: &mut Ctx) {
             });
         }
     }
-    if tier.is_thorough() {
-        for_each_connected_symbol(3, 4, &[1, 2], usize::MAX, &mut |s| {
+    {
+        let v4: &[usize] = if tier.is_thorough() { &[1, 2, 3] } else { &[1, 2] };
+        for_each_connected_symbol(3, 4, v4, if tier.is_thorough() { 3 } else { usize::MAX }, &mut |s| {
             if ctx.take() {
                 check_symbol(ctx, "labeled", s);
             }
         });
     }
-    let sets: Vec<_> = ctx.guard(|| DSets::new(2, tier.pick(6, 8)).collect::<Vec<_>>()).unwrap_or_default();
+    let sets: Vec<_> = ctx.guard(|| DSets::new(2, tier.pick(8, 10)).collect::<Vec<_>>()).unwrap_or_default();
     for ds in sets {
         if !ctx.take() {
             continue;
